@@ -251,6 +251,9 @@ pub struct ExtVal {
 
 #[derive(Clone, Debug, PartialEq, Eq, Hash, Serialize, Deserialize)]
 pub struct Impl {
+    /// attributes written on the `impl` block itself (they mean nothing there)
+    #[serde(default)]
+    pub more: Vec<String>,
     pub ty: String,
     pub funcs: Vec<Func>,
 }
@@ -269,7 +272,8 @@ pub struct BackendBlk {
 pub struct Mod {
     /// order of the statements in the file: bit 0 extern values first, bit 1 all impl blocks at the end
     /// (instead of after their type), bit 2 `use` lines after the items, bit 3 backend blocks last,
-    /// bit 4 extern types after the items, bit 5 impl blocks before their type
+    /// bit 4 extern types after the items, bit 5 impl blocks before their type, bit 6 every other
+    /// `use` path written with a leading `::`
     #[serde(default)]
     pub sty: u8,
     /// e.g. ["game", "world"]  ->  game/world.pyxis
@@ -519,8 +523,10 @@ pub fn print_mod(m: &Mod) -> String {
         let _ = writeln!(docs, "//!{l}");
     }
     let mut uses = String::new();
-    for u in &m.uses {
-        let _ = writeln!(uses, "use {};", u.join("::"));
+    for (k, u) in m.uses.iter().enumerate() {
+        // style bit 6: every other import is written with a leading `::`
+        let lead = if m.sty & 64 != 0 && k % 2 == 0 { "::" } else { "" };
+        let _ = writeln!(uses, "use {lead}{};", u.join("::"));
     }
     let mut ext_types = String::new();
     for e in &m.ext_types {
@@ -557,6 +563,9 @@ pub fn print_mod(m: &Mod) -> String {
         }
     }
     let print_impl = |out: &mut String, im: &Impl| {
+        if !im.more.is_empty() {
+            let _ = writeln!(out, "#[{}]", im.more.join(", "));
+        }
         let _ = writeln!(out, "impl {} {{", im.ty);
         for f in &im.funcs {
             print_func(out, "    ", f);
@@ -662,7 +671,7 @@ fn tpush(out: &mut Vec<Prog>, p: &Prog, mi: usize, ii: usize, f: &dyn Fn(&mut Ty
 fn reset_sty(q: &mut Prog, mask: u8) {
     let f = |fs: &mut Vec<Func>| fs.iter_mut().for_each(|f| f.sty &= mask);
     for m in &mut q.mods {
-        m.sty &= mask & 0x3f;
+        m.sty &= mask & 0x7f;
         if mask == 0 {
             m.sty = 0;
         }
